@@ -35,6 +35,9 @@ type Released struct {
 	Key  int        `json:"key"`
 	Att  *vkit.Att  `json:"att,omitempty"`
 	Prop *vkit.Prop `json:"prop,omitempty"`
+	// Wave > 0: the request ran concurrently with the other requests bearing the same number, so the
+	// order of their RELEASED lines says nothing about the order in which Dirk processed them.
+	Wave int `json:"wave,omitempty"`
 }
 
 func emit(tag string, v any) {
@@ -99,7 +102,7 @@ func ChildMain() {
 	sc := bufio.NewScanner(os.Stdin)
 	sc.Buffer(make([]byte, 1<<20), 1<<24)
 	var outMu sync.Mutex
-	doStep := func(s *c01.Step, stepNo int) {
+	doStep := func(s *c01.Step, stepNo int, wave int) {
 		var states []string
 		var rel []Released
 		switch s.Kind {
@@ -144,6 +147,7 @@ func ChildMain() {
 		outMu.Lock()
 		defer outMu.Unlock()
 		for i := range rel {
+			rel[i].Wave = wave
 			emit("RELEASED", &rel[i])
 			point("released")
 		}
@@ -168,14 +172,14 @@ func ChildMain() {
 				emit("EXPORT", exp)
 			}
 		case "step":
-			doStep(cmd.Step, cmd.Index)
+			doStep(cmd.Step, cmd.Index, 0)
 		case "wave":
 			var wg sync.WaitGroup
 			for i := range cmd.Steps {
 				wg.Add(1)
 				go func(i int) {
 					defer wg.Done()
-					doStep(&cmd.Steps[i], cmd.Index+i)
+					doStep(&cmd.Steps[i], cmd.Index+i, cmd.Index+1)
 				}(i)
 			}
 			wg.Wait()
